@@ -57,6 +57,17 @@ for pid in args:
                   'every line but changes WHEN or HOW OFTEN something happens: a statement moved across a loop, a try, a yield or a '
                   'condition; something hoisted out of or sunk into a loop; a cache or memo added; an early exit added or removed; a '
                   'default changed.')
+        if rnd >= 5:
+            import glob as _g
+            touched = set()
+            for m in _g.glob('/verif/seeded/%s-*/patch.diff' % pid):
+                for ln in open(m):
+                    if ln.startswith('+++ b/'):
+                        touched.add(ln[6:].strip())
+            t += ('\n\nFiles that earlier changes for this property already touched: ' + ', '.join(sorted(touched)) +
+                  '. If the property can be broken through a file NOT in this list (a collaborator, a helper, a base class, an '
+                  'element that is used together with these), prefer that; otherwise pick functions in these files that the earlier '
+                  'changes did not use.')
         if prev:
             t += ('\n\nEarlier changes made by other developers for this exercise were: '
                   + ' | '.join(prev) + ' -- choose different functions / mechanisms than those.')
